@@ -758,6 +758,8 @@ def judge_fn(case, rec: Recorder | None = None) -> list[Disc]:
                 b = f'C12/fn/flags-q-and-x/{kind.split(":")[0]}'
             elif 'x' in mflags and 'lit:#' in feats:
                 b = f'C12/fn/xflag-hash-character/{kind.split(":")[0]}'
+            elif pcls == 'nested-group-in-repeated-group':
+                b = f'C12/fn/nested-group-in-repeated-group/{kind.split(":")[0]}'
             if b not in seen:
                 seen.add(b)
                 discs.append(Disc(b, exp, obs, f'pattern={text!r} flags={flags!r} subject={s!r} minimal subject {ms!r} '
